@@ -53,6 +53,11 @@ func (lb *LeastActiveLoadBalance) Handler(ctx context.Context, request []byte, n
 		lb.rwlock.Unlock()
 	}
 
+	if n == 0 {
+		// no server to choose from (a client without URLs, or whose URLs did not parse): the
+		// index below would panic with the lock held, and every later call would wait for it
+		panic("loadbalance: the client has no server")
+	}
 	// choosing and counting are one step: callers that arrive together must not choose
 	// from the same counts
 	lb.rwlock.Lock()
